@@ -5,7 +5,7 @@ real handlers.  Level-synchronous BFS, frontier expanded in parallel, de-duplica
 parent on the digest of the canonical state."""
 import time
 
-from .runner import Acc, make_pool, pmap, NPROC
+from .runner import Acc, make_pool, pmap, NPROC, lib_exception
 
 
 class Spec:
@@ -29,14 +29,26 @@ def _expand(args):
     out = []
     for s in syms:
         h = hist + [s]
-        dig, probs, info = spec_mod.step(h)
+        try:
+            dig, probs, info = spec_mod.step(h)
+        except Exception as e:
+            d = lib_exception(e)
+            if d is None:
+                raise
+            dig, probs, info = None, ["the library raised %s out of a public call the scenario expects to succeed" % d], None
         out.append((s, dig, probs, info))
     return hist, out
 
 
 def _probe(args):
     spec_mod, hist = args
-    return hist, _mod(spec_mod).probe(hist)
+    try:
+        return hist, _mod(spec_mod).probe(hist)
+    except Exception as e:
+        d = lib_exception(e)
+        if d is None:
+            raise
+        return hist, ["the library raised %s out of a public call the scenario expects to succeed" % d]
 
 
 def bfs(spec_mod, roots, depth_of_root, acc, budget_s=None, probe=True, sig=lambda p: p[0], label=''):
